@@ -5181,7 +5181,7 @@ Ops!(
     b"mf"         , [0xFF              ], 3, X86_ONLY;
 ]
 "jmp"   = [
-    b"iwiw"       , [0x9A              ], X, X86_ONLY | WORD_SIZE | EXACT_SIZE;
+    b"iwiw"       , [0xEA              ], X, X86_ONLY | WORD_SIZE | EXACT_SIZE;
     b"idiw"       , [0xEA              ], X, X86_ONLY;
     b"mf"         , [0xFF              ], 5, X86_ONLY | EXACT_SIZE;
     b"ob"         , [0xEB              ], X, EXACT_SIZE;
@@ -5189,7 +5189,7 @@ Ops!(
     b"v*"         , [0xFF              ], 4, AUTO_NO32 ;
 ]
 "jmpf" = [
-    b"iwiw"       , [0x9A              ], X, X86_ONLY | WORD_SIZE | EXACT_SIZE;
+    b"iwiw"       , [0xEA              ], X, X86_ONLY | WORD_SIZE | EXACT_SIZE;
     b"idiw"       , [0xEA              ], X, X86_ONLY;
     b"md"         , [0xFF              ], 5, X86_ONLY | WORD_SIZE | EXACT_SIZE;
     b"mf"         , [0xFF              ], 5, X86_ONLY;
